@@ -64,15 +64,21 @@ func VerifC12CidxOpen() {
 
 // ---------------------------------------------------------------------------------------------
 // C12.cidx.query — a file with a well-formed 26-byte header (no metadata) whose value size is
-// one of the structure-aware candidates, followed by T arbitrary bytes (bucket headers and
-// entries: every byte symbolic). GetBucket for an arbitrary bucket number, Bucket.Lookup for an
-// arbitrary key hash, optional prefetch, Bucket.Load.
+// one of the structure-aware candidates, one bucket header and E bytes of entries.
+// Symbolic: NumBuckets, the bucket number asked for, the bucket header's hash domain, entry
+// count and hash length, every entry byte, the key hash. Structure-aware candidates: value
+// size, the bucket's file offset (valid, off by one, 0, end of file +-1, 2^47, 2^48-1).
+// GetBucket, Bucket.Lookup (with and without prefetch), Bucket.Load.
 func VerifC12CidxQuery() {
-	T := verifParam("T", 36)
 	limit := verifParam("alloc", 1<<20)
 	verifAllocLimit(int64(limit))
-	vsCands := []uint64{1, 2, 8, 36, 252, 253, 255, 256, 1<<32 + 5}
+	vsCands := []uint64{1, 2, 36, 252, 253, 255, 256, 1<<32 + 5}
 	vs := vsCands[verifChoice("valuesize", verifParam("vsizes", len(vsCands)))]
+	stride := uint8(3 + uint8(vs))
+	E := verifParam("entries", 3) * int(stride)
+	if uint8(vs) >= 253 {
+		E = 8
+	}
 	hdr := make([]byte, 26)
 	copy(hdr, Magic[:])
 	binary.LittleEndian.PutUint32(hdr[8:12], 14)
@@ -81,7 +87,19 @@ func VerifC12CidxQuery() {
 	binary.LittleEndian.PutUint32(hdr[20:24], nb)
 	hdr[24] = Version
 	hdr[25] = 0
-	data := append(hdr, verifBytes("tail", T)...)
+	total := 26 + bucketHdrLen + E
+	offCands := []uint64{26 + bucketHdrLen, 26 + bucketHdrLen + 1, 0, uint64(total - 1), uint64(total), uint64(total + 1), 1 << 47, 1<<48 - 1}
+	bh := BucketHeader{
+		HashDomain: verifU32("hashDomain"),
+		NumEntries: verifU32("numEntries"),
+		HashLen:    verifU8("hashLen"),
+		FileOffset: offCands[verifChoice("fileOffset", verifParam("offsets", len(offCands)))],
+	}
+	var hb [bucketHdrLen]byte
+	bh.Store(&hb)
+	hb[9] = verifU8("pad")
+	data := append(hdr, hb[:]...)
+	data = append(data, verifBytes("entries", E)...)
 
 	db, err := Open(bytes.NewReader(data))
 	if err != nil {
@@ -95,7 +113,6 @@ func VerifC12CidxQuery() {
 	// known defects (see /verif/proposed-fixes/C12-cidx-bucket-fields.md): the stride is
 	// computed in uint8 (value size >= 253 wraps) and the bucket header's hash length is
 	// never checked against the stride.
-	stride := uint8(3 + uint8(vs))
 	verifKnownFinding("C12-cidx-stride-wrap", uint8(vs) >= 253)
 
 	i := verifU64("bucket")
